@@ -276,7 +276,9 @@ def handle(p):
                 models.insert(0, {"func": "verif_probes_c18.fill_from_spec", "name": "fill_r",
                                   "arguments": {"init": p["running"].get("init", {})}})
             P.reset()
-            res = run_exposure(running, make_pipeline({group: models}), make_readout(times=[1.0]))
+            # several readout steps: the load_detector model is executed once per step (the detector is emptied at the
+            # start of each); what the probe sees after the LAST execution must still be the file's content
+            res = run_exposure(running, make_pipeline({group: models}), make_readout(times=p.get("times") or [1.0]))
             seen = [t for t in P.TRACE if t["tag"] == "after"]
             before = [t for t in P.TRACE if t["tag"] == "before"]
             out["seen"] = seen[-1]["canon"] if seen else None
